@@ -40,9 +40,26 @@ def r_conv(ctx):
     FLOAT_FUNCS = ('math.log', 'math.log2', 'math.log10', 'math.sqrt', 'math.pow', 'math.floor', 'math.ceil', 'numpy.log',
                    'numpy.log2', 'numpy.log10', 'numpy.sqrt', 'numpy.power', 'numpy.floor', 'numpy.ceil', 'builtins.float',
                    'builtins.round', 'builtins.pow')
+    # the decimal-string helpers themselves: no whole-number int()/str() round trip, no fixed-width numpy arithmetic
+    for name in ('calculus_addition', 'calculus_subtraction', 'calculus_multiplication', 'calculus_division'):
+        f = ctx.p.func(OP + name, required=False)
+        if f is None:
+            continue
+        bad = []
+        for nd, c, callee, q in ctx.calls()[f.fq]:
+            if q == 'builtins.int' and len(c.args) == 1 and isinstance(c.args[0], ast.Name) and c.args[0].id == 'number':
+                bad.append((nd.lineno, 'int(number) on the whole decimal string (CPython refuses more than 4300 digits)'))
+            if q and q.startswith('numpy.'):
+                bad.append((nd.lineno, 'fixed-width numpy arithmetic (%s)' % q))
+        run.check(not bad, 'R-CONV', f, 'digit-serial', bad[0][0] if bad else f.node.lineno, 'works digit by digit',
+                  '%s no longer works digit by digit: %s' % (name, bad[0][1] if bad else ''),
+                  inputs='numbers of more than 4300 decimal digits (a 14.3 kbit payload)', nontrivial=False)
     for name in ('bit_to_number', 'dna_to_number', 'number_to_bit', 'number_to_dna'):
         f = ctx.p.func(OP + name)
         bad = []
+        for nd, c, callee, q in ctx.calls()[f.fq]:
+            if q and q.startswith('numpy.') and q not in ('numpy.array', 'numpy.asarray'):
+                bad.append((nd.lineno, 'fixed-width numpy arithmetic %s (int64 wraps silently)' % q))
         seen = set()
         for nd, s in ctx.all_subterms(f):
             if s in seen:
@@ -56,8 +73,9 @@ def r_conv(ctx):
                 bad.append((nd.lineno, 'float constant %r' % (s[1],)))
         run.check(not bad, 'R-CONV', f, 'no-floating-point', bad[0][0] if bad else f.node.lineno,
                   'integer / decimal-string arithmetic only',
-                  "%s uses floating point (%s): a 53-bit mantissa rounds for numbers beyond 2^53, so the conversion is not exact "
-                  "at every length" % (name, '; '.join(b[1] for b in bad[:2])), inputs='numbers just below a power of the radix, >= 2^53')
+                  "%s leaves exact integer / decimal-string arithmetic (%s): results differ from the exact value once the number "
+                  "exceeds 2^53 (floats) or 2^63 (int64)" % (name, '; '.join(b[1] for b in bad[:2])),
+                  inputs='numbers just below a power of the radix beyond 2^53; sequences of 32 symbols and more')
         parsers = []
         for nd, c, callee, q in ctx.calls()[f.fq]:
             if q == 'builtins.int' and isinstance(c.func, ast.Name):
@@ -407,7 +425,31 @@ def r_pair(ctx):
     ok = False
     recognised = False
     why = 'no deletion of an element of latter_map[u]'
-    if len(arc_del) == 1:
+    # latter_map[u].remove(successor)
+    removes = []
+    for nd in f.nodes:
+        for d in nd.defs:
+            if d.kind == 'mutate' and isinstance(d.extra, ast.Attribute) and d.extra.attr == 'remove' and d.name == 'latter_map':
+                t_ = f.term(d.value, nd)
+                removes.append((nd, f.term(d.extra.value, nd), t_[2][0] if t_[2] else None))
+    if removes and not arc_del:
+        nd, recv, arg = removes[0]
+        Kt = find_k_term(f)
+        tgt = strip_int(arg) if arg is not None else None
+        good = recv[0] == 'sub' and strip_int(recv[2]) == strip_int(u) and tgt is not None and tgt[0] == 'bin' and tgt[1] == '%' \
+            and Kt is not None and is_pow4k(tgt[3], Kt)
+        if good:
+            a = strip_int(tgt[2])
+            good = False
+            if a[0] == 'bin' and a[1] == '+':
+                for p, q in ((a[2], a[3]), (a[3], a[2])):
+                    if p[0] == 'bin' and p[1] == '*' and ('c', 4) in (p[2], p[3]):
+                        row = p[2] if p[3] == ('c', 4) else p[3]
+                        good = strip_int(row) == strip_int(u) and strip_int(q) == strip_int(j)
+        ok = good
+        arc_del = [(nd, None)]
+        why = 'latter_map[%s].remove(%s) does not remove the successor of the cleared entry [u, j]' % (show(recv[2])[:30] if recv[0] == 'sub' else '?', show(arg)[:60] if arg else None)
+    if len(arc_del) == 1 and arc_del[0][1] is not None:
         nd, t = arc_del[0]
         row_key, idx = t[1][2], t[2]
         if strip_int(row_key) != strip_int(u):
@@ -448,12 +490,20 @@ def r_pair(ctx):
                     okk = True
     # witnesses: no deletion of a key at all (the clean-up was dropped); emptiness decided by any(...), which is also false
     # for a list that still holds vertex 0
+    wrong_key = key_del and not any(strip_int(t[2]) == strip_int(u) for nd, t in key_del)
+    if wrong_key:
+        run.refute('R-PAIR', f, 'emptied-key-deleted', key_del[0][0].lineno,
+                   'the clean-up deletes latter_map[%s], but the vertex that lost an arc is %s: the emptied entry stays (and another '
+                   'vertex can lose its whole entry), so the two views describe different graphs'
+                   % (show(key_del[0][1][2])[:50], show(u)[:40]), inputs='removing the last arc of a vertex')
+        okk = None
     falsy0 = False
-    for nd, t in key_del:
+    for nd, t in ([] if wrong_key else key_del):
         for atom, pol in ctx.conds(f, nd):
             if is_call(atom, 'builtins.any') and not pol:
                 falsy0 = True
-    if falsy0 and not okk:
+    okk = okk if wrong_key else okk
+    if falsy0 and not okk and not wrong_key:
         run.refute('R-PAIR', f, 'emptied-key-deleted', key_del[0][0].lineno,
                    'the entry of the latter map is deleted when any(successors) is false: a list that still holds vertex 0 '
                    '(index 0 is falsy) is deleted while the accessor keeps that arc', inputs='a vertex whose last remaining arc goes to vertex 0')
